@@ -191,6 +191,8 @@ def gen_case(seed, tier):
             'indent': rng.choice([None, None, 0, 2, 4]), 'scalar': rng.random() < 0.25, 'mode': mode,
             'real_subprocess': seed % (200 if tier == 'quick' else 60) == 0,
             'knobs': simrun.draw_knobs(rng)}
+    if case['real_subprocess']:
+        case['knobs']['trace_width'] = 78       # what a real process without a terminal gets
     if mode == 'fault':
         f = rng.choice(TARGET_FAULTS)
         case['fault'] = f
